@@ -896,6 +896,29 @@ pub fn gen_c07(g: &mut Gen) {
         }
         g.count("sweep:alignment");
     }
+    // 3b. escape alignment sweep: `\"` (and `\\`) at every offset 0..24 of a quoted body, so that the backslash is the last
+    //     byte of an 8-byte chunk of the SWAR quote finder and the escaped quote the first byte of the next one
+    for pad in [0usize, 1, 2, 5, 8] {
+        for l in 0..=24usize {
+            for esc in [&b"\\\""[..], b"\\\\", b"\\n"] {
+                for m in [0usize, 1, 7, 8, 9] {
+                    let mut d: Vec<u8> = (0..pad).map(|_| *rng.pick(b"\t\n ")).collect();
+                    d.push(b'"');
+                    d.extend((0..l).map(|_| *rng.pick(b"abc {}#=")));
+                    d.extend_from_slice(esc);
+                    d.extend((0..m).map(|_| *rng.pick(b"abc {}#=")));
+                    d.push(b'"');
+                    d.extend_from_slice(*rng.pick(&[&b" x=1 y=2 z=3"[..], b"\n\t\t\tfoo=bar baz", b"=\"next one\" 12"]));
+                    g.emit(format!("tlex {}", hex(&d)));
+                    g.emit(format!("tlexg {} {}", hex(b"\"\"\"\"\"\"\"\"\""), hex(&d)));
+                    g.emit(format!("tstream {} - {}", d.len() + 9, hex(&d)));
+                    let s = sched::random(&mut rng, d.len());
+                    g.emit(format!("tstream {} {} {}", ref_lex(&d).need + rng.below(12), sched::show(&s), hex(&d)));
+                }
+            }
+        }
+    }
+    g.count("sweep:escape-alignment");
     // 4. the SWAR hooks
     let n_hook = g.budget(2000, 60000);
     for _ in 0..n_hook {
